@@ -187,9 +187,71 @@ package tex
 //@   ensures #roundtrip result1 == nil && spec_unix(time.Time(result0)) == spec_unix(time.Time(v))
 //@   modifies region($alloc), Unix2Time.wall, Unix2Time.ext, Unix2Time.loc
 //
+// ---- JsByte encoder: the decimal numerals of the bytes, separated by '/' ----
+// joff(i, j): length of the encoding of the first j items (each numeral, plus one separator unless it is the last item of i)
+//@ opaque joff(i JsByte, j int) int
+//@ lemma joff_base(i JsByte)
+//@   trusted definition of joff (recursion on j): base case
+//@   ensures joff(i, 0) == 0
+//@ lemma joff_step(i JsByte, j int)
+//@   trusted definition of joff, step j -> j+1
+//@   ensures 0 <= j && j < len(i) ==> joff(i, j+1) == joff(i, j) + len(itoa(int(i[j]))) + ite(j != len(i)-1, 1, 0)
+// item k of i is written at its offset: the library's numeral of i[k], followed by '/' unless k is the last item
+//@ pure itemat(b *bytes.Buffer, i JsByte, k int) bool = (forall p int :: { bbat(b, p) } joff(i, k) <= p && p < joff(i, k) + len(itoa(int(i[k]))) ==> bbat(b, p) == itoa(int(i[k]))[p - joff(i, k)]) && (k != len(i)-1 ==> bbat(b, joff(i, k) + len(itoa(int(i[k])))) == 47)
+//@ func JsByte.splitBuilder
+//@   requires allocated(i)
+//@   maypanic
+//@   ensures #shape result != nil && isfresh(result) && bbvalid(result) && bblen(result) == joff(i, len(i)) && joff(i, len(i)) <= 21 * len(i)
+//@   ensures #items forall k int :: { joff(i, k) } 0 <= k && k < len(i) ==> itemat(result, i, k)
+//@   ensures #mono forall k int :: { joff(i, k) } 0 <= k && k < len(i) ==> 0 <= joff(i, k) && joff(i, k) + len(itoa(int(i[k]))) + ite(k != len(i)-1, 1, 0) <= joff(i, len(i))
+//@   modifies region($alloc)
+//@   use joff_base(i)
+//@   loop 1
+//@     invariant #shape 0 <= j && j <= size && size == len(i) && builder != nil && isfresh(builder) && bbvalid(builder) && bblen(builder) == joff(i, j) && (cap(builder.gbuf) == 0 || isfresh(builder.gbuf)) && allocated(i)
+//@     invariant #mono joff(i, j) >= 0 && joff(i, j) <= 21 * j && forall k int :: { joff(i, k) } 0 <= k && k < j ==> 0 <= joff(i, k) && joff(i, k) + len(itoa(int(i[k]))) + ite(k != len(i)-1, 1, 0) <= joff(i, j)
+//@     invariant #items forall k int :: { joff(i, k) } 0 <= k && k < j ==> itemat(builder, i, k)
+//@     use joff_step(i, j), joff_base(i)
+//@     exit #done j == len(i)
+//@     exit #items forall k int :: { joff(i, k) } 0 <= k && k < len(i) ==> itemat(builder, i, k)
+//@     exit #mono forall k int :: { joff(i, k) } 0 <= k && k < len(i) ==> 0 <= joff(i, k) && joff(i, k) + len(itoa(int(i[k]))) + ite(k != len(i)-1, 1, 0) <= joff(i, len(i))
+//
+//@ pure itemin(s []byte, i JsByte, k int) bool = (forall p int :: { s[p] } joff(i, k) <= p && p < joff(i, k) + len(itoa(int(i[k]))) ==> s[p] == itoa(int(i[k]))[p - joff(i, k)]) && (k != len(i)-1 ==> s[joff(i, k) + len(itoa(int(i[k])))] == 47)
+//@ func JsByte.ToJS
+//@   requires allocated(i)
+//@   maypanic
+//@   ensures #shape len(result) == joff(i, len(i)) && len(result) <= 21 * len(i) && allocated(result)
+//@   ensures #items forall k int :: { joff(i, k) } 0 <= k && k < len(i) ==> itemin(result, i, k)
+//@   ensures #mono forall k int :: { joff(i, k) } 0 <= k && k < len(i) ==> 0 <= joff(i, k) && joff(i, k) + len(itoa(int(i[k]))) + ite(k != len(i)-1, 1, 0) <= joff(i, len(i))
+//@   modifies region($alloc)
+//@ func JsByte.MarshalJSON
+//@   requires allocated(i) && len(i) < 36028797018963968
+//@   maypanic
+//@   ensures #quoted result1 == nil && quoted(result0) && len(result0) == joff(i, len(i)) + 2 && isfresh(result0)
+//@   ensures #mono forall k int :: { joff(i, k) } 0 <= k && k < len(i) ==> 0 <= joff(i, k) && joff(i, k) + len(itoa(int(i[k]))) + ite(k != len(i)-1, 1, 0) <= joff(i, len(i))
+//@   ensures #copy(@local) len(buf) == joff(i, len(i)) && forall p int :: { result0[p] } 1 <= p && p < len(result0)-1 ==> result0[p] == buf[p-1]
+//@   ensures #bufitems(@local) forall k int :: { joff(i, k) } 0 <= k && k < len(i) ==> itemin(buf, i, k)
+//@   ensures #items forall k int :: { joff(i, k) } 0 <= k && k < len(i) ==> itemin(result0[1:len(result0)-1], i, k)
+//@   modifies region($alloc)
+//
+// a string made of k numerals separated by '/' splits into exactly those numerals (decimal numerals contain no '/':
+// a fact about the library's formatter and splitter, assumed)
+//@ pure iteminstr(s string, i JsByte, k int) bool = (forall p int :: { s[p] } joff(i, k) <= p && p < joff(i, k) + len(itoa(int(i[k]))) ==> s[p] == itoa(int(i[k]))[p - joff(i, k)]) && (k != len(i)-1 ==> s[joff(i, k) + len(itoa(int(i[k])))] == 47)
+//@ lemma split_of_join(s string, i JsByte)
+//@   trusted strings.Split of the '/'-joined decimal numerals of i gives back these numerals (numerals contain no '/')
+//@   requires len(i) > 0 && len(s) == joff(i, len(i)) && forall k int :: { joff(i, k) } 0 <= k && k < len(i) ==> iteminstr(s, i, k)
+//@   ensures splitcount(s, "/") == len(i) && forall k int :: { splitpart(s, "/", k) } 0 <= k && k < len(i) ==> splitpart(s, "/", k) == itoa(int(i[k]))
+//@ func verifRoundTripJsByte
+//@   requires allocated(v) && len(v) < 36028797018963968 && ErrInvalidByteJs != nil
+//@   maypanic
+//@   ensures #roundtrip result1 == nil && len(result0) == len(v) && forall k int :: { result0[k] } 0 <= k && k < len(v) ==> result0[k] == v[k]
+//@   modifies region($alloc)
+//@   aftercall MarshalJSON use split_of_join(inner(result0), v)
+//@   use joff_base(v)
+//
 //@ func JsByte.FromString
 //@   requires i != nil && ErrInvalidByteJs != nil
 //@   ensures #empty len(strBuf) == 0 ==> result == nil && len(deref(i)) == 0
+//@   ensures #accepts len(strBuf) > 0 && (forall j int :: { splitpart(strBuf, "/", j) } 0 <= j && j < splitcount(strBuf, "/") ==> isint(splitpart(strBuf, "/", j)) && 0 <= ival(splitpart(strBuf, "/", j)) && ival(splitpart(strBuf, "/", j)) <= 255) ==> result == nil
 //@   ensures #exact result == nil && len(strBuf) > 0 ==> len(deref(i)) == splitcount(strBuf, "/") && forall j int :: { splitpart(strBuf, "/", j) } 0 <= j && j < len(deref(i)) ==> isint(splitpart(strBuf, "/", j)) && 0 <= ival(splitpart(strBuf, "/", j)) && ival(splitpart(strBuf, "/", j)) <= 255 && deref(i)[j] == uint8(ival(splitpart(strBuf, "/", j)))
 //@   modifies deref(i), region($alloc)
 //@   loop 1
@@ -199,6 +261,8 @@ package tex
 //@ func JsByte.UnmarshalJSON
 //@   requires token(b) && i != nil && ErrInvalidByteJs != nil
 //@   ensures #quoted result == nil ==> quoted(b)
+//@   ensures #empty quoted(b) && len(b) == 2 ==> result == nil && len(deref(i)) == 0
+//@   ensures #accepts quoted(b) && len(b) > 2 && (forall j int :: { splitpart(inner(b), "/", j) } 0 <= j && j < splitcount(inner(b), "/") ==> isint(splitpart(inner(b), "/", j)) && 0 <= ival(splitpart(inner(b), "/", j)) && ival(splitpart(inner(b), "/", j)) <= 255) ==> result == nil
 //@   ensures #exact result == nil && len(b) > 2 ==> len(deref(i)) == splitcount(inner(b), "/") && forall j int :: { splitpart(inner(b), "/", j) } 0 <= j && j < len(deref(i)) ==> isint(splitpart(inner(b), "/", j)) && 0 <= ival(splitpart(inner(b), "/", j)) && ival(splitpart(inner(b), "/", j)) <= 255 && deref(i)[j] == uint8(ival(splitpart(inner(b), "/", j)))
 //@   modifies deref(i), region($alloc)
 //
